@@ -1,4 +1,5 @@
 import LexgenModel.Proofs.NextMore
+import LexgenModel.Proofs.EndToEnd
 /-!
 # C09 — Every next() call terminates, makes progress, and never panics (model part)
 -/
@@ -22,5 +23,24 @@ called; no call runs out of fuel. -/
 theorem C09_item_bound (cfg : Config σ τ ε) (hm : MachineOK cfg) (st : LState σ) (hr : Ready cfg st) (n : Nat) :
     itemCount (runN cfg n st).1 ≤ st.iter.length + 1 ∧ (∀ x ∈ (runN cfg n st).1, x ≠ none) :=
   ⟨(runN_items_le cfg hm st hr n).1, (runN_items_le cfg hm st hr n).2.1⟩
+
+/-- Termination, progress and the item bound for EVERY well-formed definition the model compiles: the
+hypothesis "no rule matches the empty string" enters through `DefOK` (it makes every rule-set entry
+non-accepting); with a nullable rule the generated `next()` really loops (observed on the real macro). -/
+theorem C09_compiled (items : LexerDef) (c : Compiled) (h : compileLexer items = .ok c) (hok : DefOK items)
+    (actions : Nat → Action σ τ ε) (width : Nat → Nat) (input : Option (List Nat)) (st : LState σ)
+    (hr : Ready (c.config actions width input) st) :
+    (∃ r, next (c.config actions width input) st = some r) ∧
+    (∀ n, itemCount (runN (c.config actions width input) n st).1 ≤ st.iter.length + 1 ∧
+      ∀ x ∈ (runN (c.config actions width input) n st).1, x ≠ none) :=
+  have hm := compileLexer_machineOK items c h hok actions width input
+  ⟨next_total _ hm st hr, fun n => ⟨(runN_items_le _ hm st hr n).1, (runN_items_le _ hm st hr n).2.1⟩⟩
+
+/-- a freshly constructed lexer is `Ready` (state 0 = entry of `Init` / of the unnamed rule set) -/
+theorem C09_initial_ready (cfg : Config σ τ ε) (user : σ) (chars : List Nat) : Ready cfg (initState user chars) := by
+  refine ⟨rfl, rfl, 0, Or.inl rfl, ?_⟩
+  show (0 : Nat) = renumber (inlinedStates cfg.dfa) 0
+  unfold renumber
+  simp
 
 end Lexgen
